@@ -124,6 +124,8 @@ func TestVerif_C13_Inactivity(t *testing.T) {
 			if err := st.Initiate(ctx); err != nil {
 				t.Fatalf("Initiate: %v", err)
 			}
+			ring.NewCase()
+			ring.SetGenuine(1, mine, member.selfInactivityClaimSignature)
 			msgs := c.Get("msgs").List()
 			accepted := c.Get("accepted").List()
 			concrete := make([]vsup.Concrete, len(msgs))
